@@ -17,7 +17,7 @@ var baseWeights = Weights{
 	"write": 14, "write-old": 2, "rewrite-same": 2, "touch": 1, "rmfile": 4, "rmdir": 2, "mkdir": 1,
 	"add": 12, "add-all": 3, "rm": 4, "commit": 10, "branch": 2, "branch-rename": 1, "branch-delete": 1, "branch-list": 1,
 	"switch": 2, "switch-c": 1, "reset": 3, "restore": 4, "update-ref": 1, "config": 1, "status": 3, "log": 1, "reflog": 1,
-	"ls-files": 2, "rev-parse": 2, "cat-file": 1, "write-tree": 1, "hash-object": 1, "junk": 2, "edit-same-size": 2, "fd-swap": 1, "twins": 1, "hard-rmdir": 1,
+	"ls-files": 2, "rev-parse": 2, "cat-file": 1, "write-tree": 1, "hash-object": 1, "junk": 2, "edit-same-size": 2, "fd-swap": 1, "twins": 1, "hard-rmdir": 1, "dir-gone-probe": 1, "case-twin-commit": 1,
 }
 
 func weights(over Weights) Weights {
@@ -81,7 +81,7 @@ func init() {
 	checks["C02"] = histCheck("C02", []string{"C02.flatten_writeTree", "C02.world_commit_frame", "C02.build_ne_nil", "C02.subtrees_wellformed", "C05.readback_writeTree", "C05.walk_write", "C05.holds_storeAfter", "C01.get_put", "C02.commitCmd_ok", "C02.commit_readback", "C02.commitMake_ok", "C05.reset_readback", "C12.commit_parse_format"}, histRule,
 		func(ctx *Ctx) *HistCfg {
 			return &HistCfg{Prop: "C02", Cases: tierN(ctx, 200, 2000), MinSteps: 8, MaxSteps: 30,
-				W:       weights(Weights{"commit": 20, "add": 18, "add-all": 6, "twins": 3, "junk": 0}),
+				W:       weights(Weights{"commit": 20, "add": 18, "add-all": 6, "twins": 3, "case-twin-commit": 3, "junk": 0}),
 				Oracles: []HistOracle{orC02}}
 		})
 	checks["C07"] = histCheck("C07", []string{"C07.diff_fromTree", "C07.diff_fromTree_build", "C07.fromTree_nil_iff", "C07.fold_ok", "C06.getEntry_correct", "C07.diff_nil_iff", "C07.diff_exact", "C07.getNode_build", "C07.isNew_build", "C07.getNodeAux_build", "C02.commit_refuses_noop", "C02.commit_accepts_diff", "C07.status_staged_exact", "C07.status_clean_after_commit"}, histRule,
@@ -112,7 +112,7 @@ func init() {
 	checks["C13"] = histCheck("C13", []string{"C13.status_ok", "C13.modified_iff", "C13.same_bytes_not_modified", "C13.deleted_iff", "C13.untracked_iff", "C01.encode_injective", "C06.getEntry_correct", "C17.nothing_hidden_without_ignore"}, histRule,
 		func(ctx *Ctx) *HistCfg {
 			return &HistCfg{Prop: "C13", Cases: tierN(ctx, 200, 2000), MinSteps: 8, MaxSteps: 30,
-				W:       weights(Weights{"status": 18, "write": 18, "rewrite-same": 6, "touch": 4, "rmfile": 8, "rmdir": 4, "mkdir": 2, "ignore": 5, "ignore-probe": 6, "commit": 8, "add": 12, "edit-same-size": 8, "junk": 0}),
+				W:       weights(Weights{"status": 18, "write": 18, "rewrite-same": 6, "touch": 4, "rmfile": 8, "rmdir": 4, "mkdir": 2, "ignore": 5, "ignore-probe": 6, "dir-gone-probe": 5, "commit": 8, "add": 12, "edit-same-size": 8, "junk": 0}),
 				Oracles: []HistOracle{orC13}, CommitFirst: true,
 				// names with the extensions the generated `*.ext` entries use, so that ignored files really
 				// exist next to files that sort before and after them
